@@ -27,6 +27,7 @@ import (
 	"io"
 	"iter"
 	"math/rand"
+	"net"
 	"net/http"
 	"os"
 	"sort"
@@ -336,6 +337,7 @@ func newSxWorld(mode string, timeoutMS int, withStore bool, opts ...string) *sxW
 		}
 	})
 	hopts := &StreamableHTTPOptions{Stateless: stateless, SessionTimeout: time.Duration(timeoutMS) * time.Millisecond}
+	hopts.CrossOriginProtection = &http.CrossOriginProtection{} // (requests without Origin / Sec-Fetch-Site pass)
 	if w.store != nil {
 		hopts.EventStore = w.store
 	}
@@ -778,6 +780,11 @@ func (w *sxWorld) apply(toks []string) (obs string) {
 			req.Header.Set("Accept", "application/json")
 		case "noserver":
 			req.Header.Set(sxNoServerHeader, "1")
+		case "origin":
+			req.Header.Set("Sec-Fetch-Site", "cross-site") // the handler has CrossOriginProtection
+		case "host":
+			// arrived on a loopback address, Host names something else (DNS rebinding)
+			req = req.WithContext(context.WithValue(req.Context(), http.LocalAddrContextKey, net.Addr(&net.TCPAddr{IP: net.IPv4(127, 0, 0, 1), Port: 8080})))
 		default:
 			return "bad-op"
 		}
@@ -1136,7 +1143,7 @@ func (g *sxGen) next() (op string, tags []string) {
 	if g.rng.Intn(100) < 5 {
 		// a request that is refused before the session layer, addressed like any other
 		ref, user, cls := g.target(true)
-		why := []string{"ctype", "accept", "getaccept", "noserver"}[g.rng.Intn(4)]
+		why := []string{"ctype", "accept", "getaccept", "noserver", "origin", "host"}[g.rng.Intn(6)]
 		if why == "noserver" && !g.stateless {
 			ref, cls = "-", "noid" // (with an id the session is looked up first: an ordinary POST)
 		}
